@@ -63,6 +63,10 @@ def gen_units(rng, n):
         sn, sd = rng.choice([1, 1, 2, 3, 5, 9, 10, 100]), rng.choice([1, 1, 2, 3, 4, 9, 10, 1000])
         on, od = rng.choice([(1, 1), (1, 10), (1, 1000), (sn, sd), (sn, sd * 10), (5, 9)])
         oc = rng.choice([0, 1, -1, 7, -40, 100, 27315, -273150, rng.randrange(-10 ** 6, 10 ** 6)])
+        if Fraction(on, od) == 1:
+            # the origin's unit would be VBase itself: a unit struct of scale 1 (derived from VBase) cannot be ordered
+            # against VBase by the library ("Broken strict total ordering", cf. finding F10) - not a C09 matter
+            on, od = 1, 2
         pool.append(U(sn, sd, oc, on, od))
     return pool
 
